@@ -34,6 +34,7 @@ def ptype : Val → Ty
   | .regexp s => .regexp s
   | .binary _ => .bin
   | .tspan n => .tspan ⟨n, n⟩
+  | .tstamp n => .tstamp ⟨n, n⟩
   | .array [] => .array .unit ⟨0, 0⟩
   | .array (v :: vs) => .array (ptypeFold (ptype v) vs) (Rng.exact ((vs.length + 1 : Nat) : Int))
   | .hash [] => .hash .unit .unit ⟨0, 0⟩
@@ -144,7 +145,7 @@ def isRichKey : Val → Bool
   | _ => false
 
 def isScalarVal : Val → Bool
-  | .str _ | .int _ | .float _ | .bool _ | .tspan _ | .regexp _ => true
+  | .str _ | .int _ | .float _ | .bool _ | .tspan _ | .tstamp _ | .regexp _ => true
   | _ => false
 
 mutual
@@ -180,6 +181,7 @@ def inst (t : Ty) (v : Val) : Bool :=
   | .float lo hi => (match v with | .float f => decide (Fl.effLo lo ≤ f) && decide (f ≤ Fl.effHi hi) | _ => false)
   | .bool b => (match v with | .bool x => b.isNone || b == some x | _ => false)
   | .tspan r => (match v with | .tspan n => r.contains n | _ => false)
+  | .tstamp r => (match v with | .tstamp n => r.contains n | _ => false)
   | .strSz r => (match v with | .str s => r.contains s.length | _ => false)
   | .strVal s => (match v with | .str s' => s == s' | _ => false)
   | .enum vs ci => (match v with | .str s => enumInst cfg vs ci s | _ => false)
